@@ -216,10 +216,9 @@ def run(ctx):
                     {"rule": rule.name, "sequence": [show_symbol(ctx, s) for s in word], "symbols": [list(s) for s in word],
                      "g4_accepts": bool(t1), "atn_accepts": bool(t2)})
         extra = " after the left-recursion rewrite (alternative i of n has precedence n-i+1)" if is_left_recursive(rule) else ""
-        g.check(rule.name, "sub-ATN of rule `%s` is language-equivalent to its g4 right-hand side%s" % (rule.name, extra), one,
-                witness_families=["parser_diff"])
+        g.check(rule.name, "sub-ATN of rule `%s` is language-equivalent to its g4 right-hand side%s" % (rule.name, extra), one)
     ctx.sizes["parser_eq"] = sizes
     return g.obligations
 
 
-ASSUMPTIONS = ["A-antlr-tree: the parser accepts exactly the ATN's language and builds a derivation tree of it"]
+ASSUMPTIONS = ["A-antlr-tree"]
